@@ -9,7 +9,7 @@ NAMES = {"nop": 1, "readCounters": 2, "readAndClearCounters": 3, "getValue": 4}
 
 class Check(PropertyCheck):
     pid = "C19"
-    gen_files = ["GenApp"]
+    gen_files = ["GenApp", "GenWatchdogFn"]
     model_imports = ["gen.GenApp", "model.Watchdog"]
     run_expr = ("(fun c : N * list (N * N) => encode_run (run MAX_WATCHDOG_FAILURES "
                 "EZSP_COUNTERS_CLEAR_IN_WATCHDOG_PERIODS (fst c) winit "
